@@ -3,7 +3,7 @@ package html
 import (
 	"fmt"
 	"io"
-	"unicode"
+	"strings"
 
 	"github.com/elliotchance/gedcom/v39/html/core"
 )
@@ -19,8 +19,14 @@ func NewSurnameLink(surname string) *SurnameLink {
 }
 
 func (c *SurnameLink) WriteHTMLTo(w io.Writer) (int64, error) {
-	firstLetter := rune(c.surname[0])
-	lowerFirstLetter := unicode.ToLower(firstLetter)
+	// This has to be the same letter that getIndexLetter() uses for the pages
+	// of individuals: everything that is not a letter is on the symbol page.
+	lowerFirstLetter := symbolLetter
+	lowerSurname := strings.ToLower(c.surname)
+	if lowerSurname != "" && lowerSurname[0] >= 'a' && lowerSurname[0] <= 'z' {
+		lowerFirstLetter = rune(lowerSurname[0])
+	}
+
 	destination := fmt.Sprintf("%s#%s", PageIndividuals(lowerFirstLetter), c.surname)
 
 	return core.NewLink(core.NewText(c.surname), destination).WriteHTMLTo(w)
